@@ -62,7 +62,12 @@ fn decode(ctx: &Ctx, c: &Case) -> Result<(Option<(f64, f64)>, f64, String), Fail
     Ok((got.map(|p| (p.latitude, p.longitude)), e.rlat, hex::encode(frame)))
 }
 
-/// In-range family: the reference is within 0.95 x range and 0.95 x half-zone of the truth.
+/// The nearest zone is unique up to exactly half a zone; the margin only has to cover the half bin (2^-18 of a zone)
+/// between the true and the encoded position and float rounding. It was 0.95 until the sixth round showed that every
+/// exclusion is a hiding place.
+const HALF_ZONE_MARGIN: f64 = 0.999;
+
+/// In-range family: the reference is within 0.95 x range and 0.999 x half-zone of the truth.
 pub fn check_inrange(ctx: &Ctx, c: &Case) -> Check {
     let i = c.odd as u32;
     let span = if c.surface { 90.0 } else { 360.0 };
@@ -78,8 +83,8 @@ pub fn check_inrange(ctx: &Ctx, c: &Case) -> Check {
     // a single 360-degree longitude zone (airborne, beyond 87 degrees): every reference longitude designates the same
     // point modulo 360, nothing is ambiguous there
     let single_zone = !c.surface && ni == 1;
-    if (c.ref_lat - e.rlat).abs() > 0.95 * dlat / 2.0 || (!single_zone && dlon_abs(c.ref_lon, c.lon) > 0.95 * dlon / 2.0) {
-        ctx.exclude("reference within range by distance but beyond 0.95 half-zones in a coordinate (high latitudes; physically ambiguous)");
+    if (c.ref_lat - e.rlat).abs() > HALF_ZONE_MARGIN * dlat / 2.0 || (!single_zone && dlon_abs(c.ref_lon, c.lon) > HALF_ZONE_MARGIN * dlon / 2.0) {
+        ctx.exclude("reference within range by distance but beyond 0.999 half-zones in a coordinate (high latitudes; physically ambiguous)");
         return Ok(());
     }
     ctx.eval();
@@ -258,7 +263,7 @@ fn any_case() -> impl Strategy<Value = Case> {
 }
 
 pub fn run(ctx: &Ctx) {
-    ctx.set_rule("in-range family: truth from the C04 strata, airborne/surface x even/odd, reference = truth moved along a random bearing by r*0.95*range (r uniform, r = 1 for 1/8), additionally within 0.95 half-zones per coordinate (else excluded, counted); oracle: position within 10 m, longitude modulo 360. any-reference family: arbitrary finite references (huge, denormal, zone edges, poles, antimeridian); oracle: absent, or latitude in [-90,90] and within half a zone of the reference in both coordinates (zone width recomputed with an independent NL). sequence family: the same report against an arbitrary reference, a report a whole number of latitude zones away (same latitude count) against its own near reference, the other parity of the same point, then the case itself, forwards and backwards on one thread, each judged by its own oracle. Half of the reports carry, in their own latitude / longitude fields, a position left by an earlier decoding pass (another place, the origin, NaN): the answer may not depend on it. Carrier frames use every airborne / surface type code, any altitude / movement code and address. Non-trivial = in-range case with the reference >= 1 NM from the truth, or any any-reference case; distinct by (counts, format, parity, reference bits).");
+    ctx.set_rule("in-range family: truth from the C04 strata, airborne/surface x even/odd, reference = truth moved along a random bearing by r*0.95*range (r uniform, r = 1 for 1/8), additionally within 0.999 half-zones per coordinate (else excluded, counted); oracle: position within 10 m, longitude modulo 360. any-reference family: arbitrary finite references (huge, denormal, zone edges, poles, antimeridian); oracle: absent, or latitude in [-90,90] and within half a zone of the reference in both coordinates (zone width recomputed with an independent NL). sequence family: the same report against an arbitrary reference, a report a whole number of latitude zones away (same latitude count) against its own near reference, the other parity of the same point, then the case itself, forwards and backwards on one thread, each judged by its own oracle. Half of the reports carry, in their own latitude / longitude fields, a position left by an earlier decoding pass (another place, the origin, NaN): the answer may not depend on it. Carrier frames use every airborne / surface type code, any altitude / movement code and address. Non-trivial = in-range case with the reference >= 1 NM from the truth, or any any-reference case; distinct by (counts, format, parity, reference bits).");
     ctx.assume("independent CPR encoder; great-circle distances on a sphere R = 6371008.8 m");
     corners_and_caps(ctx);
     let n1 = ctx.tier.pick(1_000_000u32, 12_000_000u32);
